@@ -62,6 +62,9 @@ type env struct {
 	overlay         bool
 	old, out, stage string
 	oldTree         h.Tree
+	snapAt          int    // >0: inside the snapAt-th Save of a session, copy out and stage to snapDir
+	snapDir         string // where
+	snapErr         error
 }
 
 func (e *env) reset() error {
@@ -106,6 +109,13 @@ func (e *env) session(ck []byte, stopAt int, should func(i int) bool) (*sessionR
 				return patcher.AfterSaveStop, err
 			}
 			res.cks = append(res.cks, b)
+			if n == e.snapAt && e.snapDir != "" {
+				os.RemoveAll(e.snapDir)
+				e.snapErr = copyTree(e.out, filepath.Join(e.snapDir, "out"))
+				if _, err := os.Lstat(e.stage); err == nil && e.snapErr == nil {
+					e.snapErr = copyTree(e.stage, filepath.Join(e.snapDir, "stage"))
+				}
+			}
 			if n == stopAt {
 				return patcher.AfterSaveStop, nil
 			}
@@ -176,7 +186,38 @@ const (
 	tailGarbage
 	tailDeleteLater
 	nTails
+	// tailSnapshot: the disk state is the one at the very instant checkpoint k was handed to the consumer (a
+	// copy of the output and stage folders taken inside Save): the process died right there, nothing it
+	// buffered in memory ever reached the disk. Only used with lag 0.
+	tailSnapshot = nTails
 )
+
+// copyTree copies a directory tree (files, directories, symlinks) as it is on disk right now.
+func copyTree(src, dst string) error {
+	return filepath.Walk(src, func(p string, st os.FileInfo, err error) error {
+		if err != nil {
+			return err
+		}
+		rel, _ := filepath.Rel(src, p)
+		to := filepath.Join(dst, rel)
+		switch {
+		case st.IsDir():
+			return os.MkdirAll(to, 0o755)
+		case st.Mode()&os.ModeSymlink != 0:
+			dest, err := os.Readlink(p)
+			if err != nil {
+				return err
+			}
+			return os.Symlink(dest, to)
+		default:
+			b, err := os.ReadFile(p)
+			if err != nil {
+				return err
+			}
+			return os.WriteFile(to, b, st.Mode().Perm())
+		}
+	})
+}
 
 // damageTail rewrites the on-disk state that is not covered by checkpoint ck
 // (file index fi, offset off): everything at or after the checkpoint may be
@@ -360,7 +401,7 @@ outer:
 			if k+lag > N {
 				continue
 			}
-			tails := []int{tailAsLeft, tailTruncate, tailGarbage, tailDeleteLater}
+			tails := []int{tailAsLeft, tailTruncate, tailGarbage, tailDeleteLater, tailSnapshot}
 			if lag > 0 {
 				// with budget pressure, sample two tail states for lagging resumes
 				tails = []int{tailAsLeft, 1 + r.Intn(nTails-1)}
@@ -374,7 +415,12 @@ outer:
 				if err := e.reset(); err != nil {
 					return h.Result{Skip: "cannot reset"}
 				}
+				e.snapAt, e.snapDir, e.snapErr = 0, "", nil
+				if tail == tailSnapshot {
+					e.snapAt, e.snapDir = k, filepath.Join(d, "snap")
+				}
 				run, err := e.session(nil, k+lag, nil)
+				e.snapAt = 0
 				if err != nil {
 					return fail("run stopped at checkpoint %d failed: %v", k+lag, err)
 				}
@@ -387,12 +433,23 @@ outer:
 					return fail("checkpoint %d does not survive gob: %v", k, err)
 				}
 				fi, off, inOverlay, bsd := ckInfo(ck)
-				if m := e.damageTail(run.src, fi, off, tail, r); m != "" {
+				if tail == tailSnapshot {
+					if e.snapErr != nil {
+						return h.Result{Skip: "cannot snapshot: " + e.snapErr.Error()}
+					}
+					os.RemoveAll(e.out)
+					os.RemoveAll(e.stage)
+					if err := os.Rename(filepath.Join(e.snapDir, "out"), e.out); err != nil {
+						return h.Result{Skip: "cannot restore snapshot: " + err.Error()}
+					}
+					os.Rename(filepath.Join(e.snapDir, "stage"), e.stage)
+					cl = append(cl, "resume:disk-as-it-was-inside-Save")
+				} else if m := e.damageTail(run.src, fi, off, tail, r); m != "" {
 					return fail("checkpoint %d (+%d): %s", k, lag, m)
 				}
 				res, err := e.session(ckb, 0, nil)
 				desc := fmt.Sprintf("resume from checkpoint %d/%d (file %d, disk offset %d) after reaching checkpoint %d, tail state %s",
-					k, N, fi, off, k+lag, []string{"as-left", "truncated", "garbage", "later-files-deleted"}[tail])
+					k, N, fi, off, k+lag, []string{"as-left", "truncated", "garbage", "later-files-deleted", "as-it-was-inside-Save (process died there)"}[tail])
 				if err != nil {
 					return fail("%s: %v", desc, err)
 				}
